@@ -337,6 +337,80 @@ def history_check(part: Part, cfg, shape):
         part.violation("C12:history:messages-lost", f"{cfg} {shape}: {got} of {HISTORY_N} frames delivered", case)
 
 
+def absent_consumer_check(part: Part, cfg, kind, size):
+    """The application does not read.  Whatever the frames look like (also empty ones), the queue must ask the
+    transport to pause after a bounded number of them: what is retained for the application is bounded too."""
+    limit = 8
+    proto = _Proto()
+    q = WebSocketDataQueue(proto, limit, loop=None)
+    r = WebSocketReader(q, cfg["max_msg_size"], cfg["compress"], cfg["decode_text"])
+    op = {"binary": 2, "text": 1, "ping": 9, "pong": 10}[kind]
+    frame = F(op, b"x" * size)
+    case = {"kind": "absent", "cfg": cfg, "shape": [kind, size]}
+    bound = 2 * limit + 2          # one-byte messages fill twice the limit (the queue's own rule), plus the one that trips it
+    for i in range(HISTORY_N):
+        try:
+            r.feed_data(frame)
+        except BaseException as e:  # noqa: BLE001
+            part.violation(f"C12:exception-escapes:{type(e).__name__}", f"absent consumer {kind}/{size} frame {i}: {e!r}", case)
+            return
+        if len(q._buffer) > bound and not proto._reading_paused:
+            part.violation(f"C12:history:queue-grows-unpaused:{kind}:{size}",
+                           f"{cfg}: {len(q._buffer)} {kind} messages of {size} byte(s) are queued for an application that does not read "
+                           f"(queue limit {limit}) and the transport was never asked to pause", case)
+            return
+        if proto._reading_paused:
+            break
+    part.count("executions")
+    part.count("transitions", i + 1)
+    part.outcome(("absent", kind, size, len(q._buffer)))
+
+
+def after_violation_check(part: Part, cfg, bad):
+    """Through the real client protocol: once the reader has failed, what the peer keeps sending is nobody's, and must
+    not pile up in the protocol either."""
+    from aiohttp.client_proto import ResponseHandler
+
+    from mc.vloop import VLoop
+    from mc.wire import SinkProtocol, pair
+
+    loop = VLoop().hold()
+    try:
+        proto = ResponseHandler(loop)
+        sink = SinkProtocol()
+        ct, _st = pair(loop, proto, sink)
+        proto.connection_made(ct)
+        proto.set_response_params()
+        proto.data_received(b"HTTP/1.1 101 Switching Protocols\r\nUpgrade: websocket\r\nConnection: upgrade\r\n\r\n")
+        q = WebSocketDataQueue(proto, 2 ** 16, loop=loop)
+        proto.set_parser(WebSocketReader(q, cfg["max_msg_size"], cfg["compress"], cfg["decode_text"]), q)
+        case = {"kind": "after-violation", "cfg": cfg, "shape": [bad]}
+        proto.data_received(F(1, b"ok"))
+        proto.data_received({"op15": bytes([0x8F, 0x00]), "close": F(8, b"\x03\xe8"), "ping-frag": bytes([0x09, 0x00])}[bad])
+        for i in range(HISTORY_N):
+            try:
+                proto.data_received(F(2, b"y" * 100))
+            except BaseException as e:  # noqa: BLE001
+                part.violation(f"C12:exception-escapes:{type(e).__name__}", f"after {bad}: {e!r}", case)
+                return
+            held = len(proto._tail)
+            if held > 1024:
+                part.violation(f"C12:history:retained-after-the-end:{bad}",
+                               f"{cfg}: {held} bytes received after the {bad} frame ended the stream are kept by the client protocol "
+                               f"(after {i + 1} further frames); nothing will ever read them", case)
+                return
+        got = []
+        _drain(q, got)
+        part.count("executions")
+        part.count("transitions", HISTORY_N)
+        part.outcome(("after-violation", bad, len(got)))
+        # (frames behind a Close frame stay in the queue, which has its own bound; ws.receive() does not hand them out)
+        if bad != "close" and len(got) != 1:
+            part.violation("C12:history:delivered-after-the-end", f"{cfg}: {len(got)} messages delivered around a {bad} frame, 1 expected", case)
+    finally:
+        loop.finish()
+
+
 HISTORY_SHAPES = [(k, m, c) for k in ("binary", "text", "ping") for m in (False, True) for c in ("header|payload", "header-1", "mid", "whole")]
 
 
@@ -345,6 +419,11 @@ def _job(job):
         part = Part()
         for shape in HISTORY_SHAPES:
             history_check(part, job[1], shape)
+        for kind in ("binary", "text", "ping", "pong"):
+            for size in (0, 1, 3):
+                absent_consumer_check(part, job[1], kind, size)
+        for bad in ("op15", "close", "ping-frag"):
+            after_violation_check(part, job[1], bad)
         return part
     cfg, seqs, two, bytewise = job
     T = tokens(cfg)
@@ -404,6 +483,14 @@ def replay(case):
     if case.get("kind") == "history":
         part = Part()
         history_check(part, cfg, tuple(case["shape"]))
+        return part.violations
+    if case.get("kind") == "absent":
+        part = Part()
+        absent_consumer_check(part, cfg, *case["shape"])
+        return part.violations
+    if case.get("kind") == "after-violation":
+        part = Part()
+        after_violation_check(part, cfg, *case["shape"])
         return part.violations
     T = tokens(cfg)
     names = case["tokens"]
